@@ -100,3 +100,55 @@ def construct(m, meta):
                     if o==r and hash(o)!=hash(r): bad+=1; problems.append(("equal sets hash differently", repr(o), repr(r)))
                     if (snapshot(o)==snapshot(r)) != (o==r): bad+=1; problems.append(("== disagrees with contents", repr(snapshot(o)), repr(snapshot(r)), o==r))
     return {"reproduced": bool(problems), "input": f"{n} constructions over random class trees", "observed": [repr(p)[:400] for p in problems[:3]]}
+
+
+def namespace_classes(m, meta):
+    """defining namespace classes on the real metaclasses: every combination of the documented rules"""
+    import tests  # noqa: F401
+    from term_image.renderable import ArgsNamespace, Renderable
+    from term_image.geometry import Size
+    problems = []
+
+    def render_cls(name):
+        return type(name, (Renderable,), {"_get_render_size_": lambda s: Size(1, 1), "_render_": lambda s, a, b: None})
+    n = 0
+    for two_bases in (False, True):
+        for base_kind in ("plain", "associated"):
+            for own in (False, True):
+                for all_defaults in (True, False):
+                    for rc in ("none", "fresh", "has-args", "not-a-class"):
+                        if not own and not all_defaults:
+                            continue
+                        n += 1
+                        if base_kind == "associated":
+                            B = render_cls(f"B{n}")
+                            base = type(f"BaseArgs{n}", (ArgsNamespace,), {"__annotations__": {"x": int}, "x": 0}, render_cls=B)
+                        else:
+                            base = ArgsNamespace
+                        bases = (base, type(f"Mixin{n}", (ArgsNamespace,), {})) if two_bases else (base,)
+                        ns = {}
+                        if own:
+                            ns = {"__annotations__": {"a": int, "b": int}, "a": 1}
+                            if all_defaults:
+                                ns["b"] = 2
+                        kw = {}
+                        T = None
+                        if rc != "none":
+                            T = render_cls(f"T{n}") if rc != "not-a-class" else 5
+                            if rc == "has-args":
+                                type(f"Prior{n}", (ArgsNamespace,), {"__annotations__": {"p": int}, "p": 0}, render_cls=T)
+                            kw["render_cls"] = T
+                        valid = (not two_bases and not (base_kind == "associated" and own) and all_defaults
+                                 and (rc == "none" and not own or rc == "fresh" and own and base_kind == "plain"))
+                        try:
+                            C = type(f"New{n}", bases, ns, **kw)
+                            ok = True
+                        except Exception as e:
+                            ok = False
+                            err = type(e).__name__
+                        if ok != valid:
+                            problems.append({"bases": len(bases), "base": base_kind, "own fields": own, "defaults for all": all_defaults, "render_cls": rc,
+                                             "accepted": ok, "documented": valid})
+                        elif ok and rc == "fresh" and not (T.Args is C and C.get_render_cls() is T and dict(C._FIELDS) == {"a": 1, "b": 2}):
+                            problems.append({"association not recorded": (T.Args, C)})
+    return {"reproduced": bool(problems), "input": f"{n} namespace class definitions", "observed": [repr(p)[:260] for p in problems[:3]]}
